@@ -16,12 +16,18 @@ could change what the decorators register (the `token` decorator itself, other
 uses of `tokenizers`, rebinding of Token / CC / TC / len / next, ...).
 
 The output depends on the abstract syntax only: comments, docstrings, layout
-and the names of local variables do not change it.
+and the names of local variables do not change it.  Before a body is
+translated it is brought into a normal form by the purely syntactic rewrites of
+the section "normalisation" below (each one is an equivalence of Python
+programs for the objects involved; the reason is given next to it): literal
+module-level constants are inlined, helper functions are inlined, constant
+locals are propagated, guards that return None early become nesting.
 
 Usage: gen_tokrules.py <out.v>    exit 0 = written (only if content changed)
                                   exit 2 = translation failed (message on stderr)
 """
 import ast
+import copy
 import os
 import sys
 
@@ -65,7 +71,7 @@ def token(name):
 
 
 def where(n):
-    return 'line %s' % getattr(n, 'lineno', '?')
+    return 'line %s' % getattr(n, 'src_line', getattr(n, 'lineno', '?'))
 
 
 def shape(n):
@@ -87,6 +93,28 @@ def strip_doc(body):
     return body
 
 
+def strip_annotations(tree):
+    """Annotations of parameters, return values and assignments do not take part
+    in running a function: `def f(x: T = d) -> R` is `def f(x=d)`, `x: T = e`
+    is `x = e`.  (A bare `x: T` is left alone and refused later.)"""
+    class T(ast.NodeTransformer):
+        def visit_FunctionDef(self, n):
+            self.generic_visit(n)
+            n.returns = None
+            a = n.args
+            for x in getattr(a, 'posonlyargs', []) + a.args + a.kwonlyargs + [a.vararg, a.kwarg]:
+                if x is not None:
+                    x.annotation = None
+            return n
+
+        def visit_AnnAssign(self, n):
+            self.generic_visit(n)
+            if n.value is not None and isinstance(n.target, (ast.Name, ast.Attribute)):
+                return ast.copy_location(ast.Assign(targets=[n.target], value=n.value), n)
+            return n
+    return ast.fix_missing_locations(T().visit(tree))
+
+
 # --------------------------------------------------------------------- module
 
 def check_module(tree):
@@ -102,6 +130,7 @@ def check_module(tree):
     for st in tree.body:
         if isinstance(st, ast.ImportFrom):
             for a in st.names:
+                need(a.name != '*', 'star import at %s' % where(st))
                 bind(a.asname or a.name, 'from %s import %s' % (st.module, a.name))
         elif isinstance(st, ast.Import):
             for a in st.names:
@@ -165,14 +194,638 @@ def check_module(tree):
     need(len(uses) == len(rules), '`token` is used other than as a top-level decorator')
     names = [r for r, _ in rules]
     need(sorted(names) == sorted(RULES), 'registered token rules changed: %s' % names)
-    return rules
+    for nm in ('frozenset', 'tuple', 'set', 'list'):
+        need(nm not in bound, 'builtin %s is rebound at module level' % nm)
+    return rules, bound
+
+
+
+# -------------------------------------------------------------- normalisation
+# Purely syntactic rewrites of a rule body (a copy of its Python AST) that are
+# applied before the translation.  Each is an equivalence of Python programs
+# for the objects the rules work on (a Buffer `text`, Tokens, IntEnum category
+# codes); whatever they do not recognise is left alone and then either
+# translates as it stands or fails closed in the translation.
+
+def is_code_attr(n):
+    """CC.x / TC.x"""
+    return (isinstance(n, ast.Attribute) and isinstance(n.value, ast.Name)
+            and n.value.id in ('CC', 'TC') and isinstance(n.ctx, ast.Load))
+
+
+def is_none_const(n):
+    return isinstance(n, ast.Constant) and n.value is None
+
+
+def simple_const(n):
+    """an int literal or CC.x / TC.x: immutable, evaluation has no effect"""
+    if is_int(n):
+        return True
+    if isinstance(n, ast.UnaryOp) and isinstance(n.op, ast.USub) and is_int(n.operand):
+        return True
+    return is_code_attr(n)
+
+
+def same(a, b):
+    return ast.dump(a) == ast.dump(b)
+
+
+def stored_names(nodes):
+    out = set()
+    for st in nodes:
+        for n in ast.walk(st):
+            if isinstance(n, ast.Name) and isinstance(n.ctx, (ast.Store, ast.Del)):
+                out.add(n.id)
+    return out
+
+
+def param_names(fn):
+    a = fn.args
+    out = [x.arg for x in getattr(a, 'posonlyargs', []) + a.args + a.kwonlyargs]
+    if a.vararg:
+        out.append(a.vararg.arg)
+    if a.kwarg:
+        out.append(a.kwarg.arg)
+    return out
+
+
+# ---- literal module-level constants
+
+def literal_collection(v):
+    """the elements of a literal tuple / list / set of category codes, possibly
+    wrapped in frozenset() / tuple() / set() / list(); None for anything else"""
+    if isinstance(v, ast.Call) and isinstance(v.func, ast.Name) \
+            and v.func.id in ('frozenset', 'tuple', 'set', 'list') \
+            and len(v.args) == 1 and not v.keywords:
+        v = v.args[0]
+    if isinstance(v, (ast.Tuple, ast.List, ast.Set)) and v.elts and all(is_code_attr(e) for e in v.elts):
+        return v.elts
+    return None
+
+
+def literal_dict(v):
+    def key_ok(k):
+        return k is not None and (is_code_attr(k) or (isinstance(k, ast.Tuple) and len(k.elts) == 2
+                                                      and all(is_code_attr(e) for e in k.elts)))
+    if isinstance(v, ast.Dict) and v.keys and all(key_ok(k) for k in v.keys) \
+            and all(is_code_attr(x) for x in v.values):
+        return v
+    return None
+
+
+def module_constants(tree, bound):
+    """{name: ('coll', [elements]) | ('dict', ast.Dict)} for the module-level
+    names that are bound exactly once, by a literal of category codes, and whose
+    every other occurrence in the module only READS them: right operand of
+    in / not in (also NAME.keys() there) or NAME[...].  Such a name means its
+    literal wherever a function uses it without binding it locally (membership
+    in a tuple, a list, a set or a frozenset of IntEnum members is the same
+    test; the members hash and compare as ints, None is in none of them)."""
+    consts = {}
+    for st in tree.body:
+        if isinstance(st, ast.Assign) and len(st.targets) == 1 and isinstance(st.targets[0], ast.Name):
+            nm = st.targets[0].id
+            if bound.get(nm) != ['assign'] or nm in RESERVED:
+                continue
+            el = literal_collection(st.value)
+            if el is not None:
+                consts[nm] = ('coll', el)
+            elif literal_dict(st.value) is not None:
+                consts[nm] = ('dict', st.value)
+    readers = set()
+    for n in ast.walk(tree):
+        if isinstance(n, ast.Compare) and len(n.ops) == 1 and isinstance(n.ops[0], (ast.In, ast.NotIn)):
+            r = n.comparators[0]
+            if isinstance(r, ast.Name):
+                readers.add(id(r))
+            if isinstance(r, ast.Call) and isinstance(r.func, ast.Attribute) and r.func.attr == 'keys' \
+                    and isinstance(r.func.value, ast.Name) and not r.args and not r.keywords:
+                readers.add(id(r.func.value))
+        if isinstance(n, ast.Subscript) and isinstance(n.ctx, ast.Load) and isinstance(n.value, ast.Name):
+            readers.add(id(n.value))
+    bad = set()
+    for n in ast.walk(tree):
+        if isinstance(n, ast.Name) and n.id in consts and isinstance(n.ctx, ast.Load) and id(n) not in readers:
+            bad.add(n.id)
+    # a name that some function binds locally is not touched in that function
+    # (inline_constants); at module level it is bound once (bound == ['assign'])
+    return dict((k, v) for k, v in consts.items() if k not in bad)
+
+
+def inline_constants(fn, consts):
+    """uses of a literal module constant inside fn: a collection is replaced by
+    the tuple of its elements where it is tested; a dict becomes the local
+    `NAME = {...}` as the first statement (building the dict has no effect)"""
+    local = stored_names(fn.body) | set(param_names(fn))
+    used_dicts = []
+
+    class T(ast.NodeTransformer):
+        def visit_Name(self, n):
+            if isinstance(n.ctx, ast.Load) and n.id in consts and n.id not in local:
+                kind, val = consts[n.id]
+                if kind == 'coll':
+                    return ast.Tuple(elts=[copy.deepcopy(e) for e in val], ctx=ast.Load())
+                if n.id not in used_dicts:
+                    used_dicts.append(n.id)
+            return n
+    fn.body = [T().visit(st) for st in fn.body]
+    pre = [ast.Assign(targets=[ast.Name(id=nm, ctx=ast.Store())], value=copy.deepcopy(consts[nm][1]))
+           for nm in used_dicts]
+    fn.body = pre + fn.body
+
+
+# ---- helper functions
+
+def helper_defs(tree, bound):
+    """module-level functions that may be inlined: bound once, by a plain def"""
+    out = {}
+    for st in tree.body:
+        if isinstance(st, ast.FunctionDef) and not st.decorator_list and bound.get(st.name) == ['def'] \
+                and st.name not in ('token', 'next_token', 'tokenize') and st.name not in RESERVED:
+            out[st.name] = st
+    return out
+
+
+class Inliner(object):
+    """`x = helper(args)` / `helper(args)` as a statement is replaced by the
+    helper's body: a parameter that receives `text` / `prev` or a constant is
+    replaced by it (the helper must not rebind it), any other parameter becomes
+    a local bound to its argument first (exactly what the call does), the
+    helper's own locals are renamed apart, and its single `return v` (last
+    statement) becomes the binding of x.  When x itself is passed for the
+    returned parameter, or a freshly built object is, that parameter IS x.
+    Helpers whose body has any other `return`, nested functions, generators ...
+    are not inlined (the call then fails to translate)."""
+
+    def __init__(self, helpers, caller):
+        self.helpers, self.caller, self.k = helpers, caller, 0
+        self.caller_locals = stored_names(caller.body) | set(param_names(caller))
+
+    def site(self, s):
+        if isinstance(s, ast.Assign) and len(s.targets) == 1 and isinstance(s.targets[0], ast.Name) \
+                and isinstance(s.value, ast.Call) and isinstance(s.value.func, ast.Name) \
+                and s.value.func.id in self.helpers and s.value.func.id not in self.caller_locals:
+            return s.value, s.targets[0].id
+        if isinstance(s, ast.Expr) and isinstance(s.value, ast.Call) and isinstance(s.value.func, ast.Name) \
+                and s.value.func.id in self.helpers and s.value.func.id not in self.caller_locals:
+            return s.value, None
+        return None, None
+
+    def block(self, stmts, depth=0):
+        out = []
+        for s in stmts:
+            call, target = self.site(s)
+            if call is not None:
+                need(depth < 4, '%s: helper calls nest too deep' % self.caller.name)
+                out.extend(self.block(self.expand(call, target), depth + 1))
+                continue
+            for fld in ('body', 'orelse'):
+                if isinstance(getattr(s, fld, None), list):
+                    setattr(s, fld, self.block(getattr(s, fld), depth))
+            out.append(s)
+        return out
+
+    def expand(self, call, target):
+        h = self.helpers[call.func.id]
+        who = '%s: call of %s' % (self.caller.name, h.name)
+        a = h.args
+        need(not a.vararg and not a.kwonlyargs and not a.kwarg and not getattr(a, 'posonlyargs', [])
+             and not a.defaults and not a.kw_defaults, '%s: unsupported parameter kinds' % who)
+        params = [x.arg for x in a.args]
+        need(len(set(params)) == len(params), '%s: duplicate parameter' % who)
+        need(not any(isinstance(x, ast.Starred) for x in call.args)
+             and all(k.arg is not None for k in call.keywords), '%s: * or ** argument' % who)
+        need(len(call.args) <= len(params), '%s: too many arguments' % who)
+        slots = list(call.args) + [None] * (len(params) - len(call.args))
+        for k in call.keywords:
+            need(k.arg in params and slots[params.index(k.arg)] is None, '%s: keyword %s' % (who, k.arg))
+            slots[params.index(k.arg)] = k.value
+        need(all(x is not None for x in slots), '%s: missing argument' % who)
+        # arguments are evaluated in call order; only names, constants and ONE
+        # constructed object are accepted, so the order cannot matter
+        need(sum(1 for x in slots if not (isinstance(x, ast.Name) or simple_const(x) or is_none_const(x))) <= 1,
+             '%s: more than one computed argument' % who)
+        if target is not None and any(isinstance(x, ast.Call) for x in slots):
+            need(sum(1 for x in slots if isinstance(x, ast.Name) and x.id == target) == 0,
+                 '%s: %s is passed next to a computed argument' % (who, target))
+        body = copy.deepcopy(strip_doc(h.body))
+        need(body, '%s: empty helper' % who)
+        for st in body:
+            for n in ast.walk(st):
+                need(not isinstance(n, (ast.FunctionDef, ast.AsyncFunctionDef, ast.Lambda, ast.ClassDef,
+                                        ast.Yield, ast.YieldFrom, ast.Await, ast.Try, ast.With, ast.Import,
+                                        ast.ImportFrom, ast.Global, ast.Nonlocal, ast.Delete)),
+                     '%s: unsupported construct %s in the helper' % (who, type(n).__name__))
+        rets = [n for st in body for n in ast.walk(st) if isinstance(n, ast.Return)]
+        ret = None
+        if rets:
+            need(len(rets) == 1 and body[-1] is rets[0], '%s: the helper returns other than at its end' % who)
+            r = body.pop()
+            if not (r.value is None or is_none_const(r.value)):
+                need(isinstance(r.value, ast.Name), '%s: the helper returns an expression' % who)
+                ret = r.value.id
+        if target is not None:
+            need(ret is not None, '%s: the value of a helper that returns None is used' % who)
+        stores = stored_names(body)
+        hlocals = set(params) | stores
+        self.k += 1
+        rename, subst, pre, post = {}, {}, [], []
+
+        def fresh(nm):
+            return '_h%d_%s' % (self.k, nm)
+
+        def assign(nm, val):
+            return ast.Assign(targets=[ast.Name(id=nm, ctx=ast.Store())], value=val)
+        for p, arg in zip(params, slots):
+            if isinstance(arg, ast.Name) and arg.id in ('text', 'prev') and arg.id not in stored_names(self.caller.body):
+                need(p not in stores, '%s: the helper rebinds the parameter that receives %s' % (who, arg.id))
+                rename[p] = arg.id
+            elif simple_const(arg) or is_none_const(arg):
+                need(p not in stores, '%s: the helper rebinds the parameter that receives a constant' % who)
+                subst[p] = arg
+            elif p == ret and target is not None and isinstance(arg, ast.Name) and arg.id == target:
+                rename[p] = target
+            elif p == ret and target is not None and isinstance(arg, ast.Call):
+                rename[p] = target
+                pre.append(assign(target, copy.deepcopy(arg)))
+            else:
+                rename[p] = fresh(p)
+                pre.append(assign(rename[p], copy.deepcopy(arg)))
+        for l in sorted(stores - set(params)):
+            rename[l] = target if (l == ret and target is not None) else fresh(l)
+        if ret is not None and target is not None and ret in subst:
+            post.append(assign(target, copy.deepcopy(subst[ret])))
+        elif ret is not None and target is not None and rename.get(ret) != target:
+            need(ret in rename, '%s: the helper returns the global %s' % (who, ret))
+            post.append(assign(target, ast.Name(id=rename[ret], ctx=ast.Load())))
+        # a global name of the helper must not be captured by a caller local
+        for st in body:
+            for n in ast.walk(st):
+                if isinstance(n, ast.Name) and n.id not in hlocals:
+                    need(n.id not in self.caller_locals and not n.id.startswith('_h'),
+                         '%s: the helper uses the global %s, a local of the caller' % (who, n.id))
+
+        class T(ast.NodeTransformer):
+            def visit_Name(self, n):
+                if n.id in subst:
+                    return copy.deepcopy(subst[n.id])
+                if n.id in rename:
+                    return ast.Name(id=rename[n.id], ctx=n.ctx)
+                return n
+        body = [T().visit(st) for st in body]
+        self.caller_locals |= set(rename.values())
+        return pre + body + post
+
+
+# ---- return None early / at the end; conditional-expression returns
+
+def is_ret_none(s):
+    return isinstance(s, ast.Return) and (s.value is None or is_none_const(s.value))
+
+
+def negate(e):
+    """an expression with the opposite truth value, same evaluation order, same
+    exceptions: De Morgan keeps the short-circuit order; == / !=, in / not in,
+    is / is not are each other's negation for the values compared here (ints,
+    IntEnum members, None, one-character strs / Tokens)"""
+    if isinstance(e, ast.UnaryOp) and isinstance(e.op, ast.Not):
+        return e.operand
+    if isinstance(e, ast.BoolOp):
+        op = ast.Or() if isinstance(e.op, ast.And) else ast.And()
+        return ast.BoolOp(op=op, values=[negate(v) for v in e.values])
+    if isinstance(e, ast.Compare) and len(e.ops) == 1:
+        flip = {ast.Eq: ast.NotEq, ast.NotEq: ast.Eq, ast.In: ast.NotIn, ast.NotIn: ast.In,
+                ast.Is: ast.IsNot, ast.IsNot: ast.Is}.get(type(e.ops[0]))
+        if flip is not None:
+            return ast.Compare(left=e.left, ops=[flip()], comparators=e.comparators)
+    return ast.UnaryOp(op=ast.Not(), operand=e)
+
+
+def expand_ifexp_returns(stmts):
+    """return A if C else B   ==   if C: return A   else: return B"""
+    out = []
+    for s in stmts:
+        for fld in ('body', 'orelse'):
+            if isinstance(getattr(s, fld, None), list):
+                setattr(s, fld, expand_ifexp_returns(getattr(s, fld)))
+        if isinstance(s, ast.Return) and isinstance(s.value, ast.IfExp):
+            s = ast.If(test=s.value.test, body=[ast.Return(value=s.value.body)],
+                       orelse=[ast.Return(value=s.value.orelse)])
+            s.body = expand_ifexp_returns(s.body)
+            s.orelse = expand_ifexp_returns(s.orelse)
+        out.append(s)
+    return out
+
+
+def norm_tail(stmts):
+    """stmts ends where the function ends (falling off returns None):
+       ...; return None                    ==  ...
+       if G: return None                   ==  if not G:
+       REST                                        REST
+       if C: (nothing) else: X             ==  if not C: X
+    and the same inside the branches of a final `if`."""
+    out = list(stmts)
+    for i, s in enumerate(out):
+        if isinstance(s, ast.If) and not s.orelse and len(s.body) == 1 and is_ret_none(s.body[0]) \
+                and i < len(out) - 1:
+            rest = norm_tail(out[i + 1:])
+            if rest:
+                return out[:i] + [ast.If(test=negate(s.test), body=rest, orelse=[])]
+            break
+    if out and is_ret_none(out[-1]):
+        out.pop()
+    if out and isinstance(out[-1], ast.If):
+        s = out[-1]
+        s.body, s.orelse = norm_tail(s.body), norm_tail(s.orelse)
+        if not s.body and s.orelse:
+            out[-1] = ast.If(test=negate(s.test), body=s.orelse, orelse=[])
+    return out
+
+
+# ---- locals that only ever hold constants
+
+class ConstProp(object):
+    """A local all of whose bindings are `x = <int literal or CC.a / TC.a>`
+    (also through tuple unpacking of such a tuple) is replaced by the constant
+    it holds.  Where the two branches of an `if` leave different constants in
+    such a local and the following statements read it, those statements are
+    moved into both branches (they follow either branch anyway)."""
+
+    def __init__(self, fn):
+        self.name = fn.name
+        cand, other = set(), set()
+
+        def classify(t, v):
+            if isinstance(t, ast.Name):
+                (cand if v is not None and simple_const(v) else other).add(t.id)
+            elif isinstance(t, (ast.Tuple, ast.List)):
+                if isinstance(v, ast.Tuple) and len(v.elts) == len(t.elts):
+                    for x, y in zip(t.elts, v.elts):
+                        classify(x, y)
+                else:
+                    for x in t.elts:
+                        classify(x, None)
+            else:
+                for n in ast.walk(t):
+                    if isinstance(n, ast.Name) and isinstance(n.ctx, ast.Store):
+                        other.add(n.id)
+        for n in ast.walk(fn):
+            if isinstance(n, ast.Assign):
+                for t in n.targets:
+                    classify(t, n.value)
+            elif isinstance(n, (ast.AugAssign, ast.AnnAssign)):
+                classify(n.target, None)
+            elif isinstance(n, (ast.For, ast.comprehension)):
+                classify(n.target, None)
+            elif isinstance(n, ast.NamedExpr):
+                classify(n.target, None)
+        self.names = cand - other - set(param_names(fn)) - RESERVED
+        self.budget = 400
+
+    def subst(self, node, env):
+        if not env:
+            return node
+
+        class T(ast.NodeTransformer):
+            def visit_Name(self, n):
+                if isinstance(n.ctx, ast.Load) and n.id in env:
+                    return copy.deepcopy(env[n.id])
+                return n
+        return T().visit(node)
+
+    def const_targets(self, s):
+        """[(name, value)] when s binds constant locals only, else None"""
+        if not isinstance(s, ast.Assign):
+            return None
+        pairs = []
+
+        def go(t, v):
+            if isinstance(t, ast.Name):
+                pairs.append((t.id, v))
+            elif isinstance(t, (ast.Tuple, ast.List)) and isinstance(v, ast.Tuple) and len(v.elts) == len(t.elts):
+                for x, y in zip(t.elts, v.elts):
+                    go(x, y)
+            else:
+                pairs.append((None, None))
+        for t in s.targets:
+            go(t, s.value)
+        hits = [nm in self.names for nm, _ in pairs]
+        if not any(hits):
+            return None
+        need(all(hits), '%s: constant and other locals bound by one assignment' % self.name)
+        return pairs
+
+    def reads(self, stmts, names):
+        return any(isinstance(n, ast.Name) and isinstance(n.ctx, ast.Load) and n.id in names
+                   for st in stmts for n in ast.walk(st))
+
+    def block(self, stmts, env):
+        out = []
+        for i, s in enumerate(stmts):
+            self.budget -= 1
+            need(self.budget > 0, '%s: constant propagation grows too large' % self.name)
+            pairs = self.const_targets(s)
+            if pairs is not None:
+                for nm, v in pairs:
+                    env[nm] = v
+                continue
+            if isinstance(s, ast.If):
+                test = self.subst(s.test, env)
+                b1, e1 = self.block(s.body, dict(env))
+                b2, e2 = self.block(s.orelse, dict(env))
+                diff = set(k for k in set(e1) | set(e2)
+                           if k not in e1 or k not in e2 or not same(e1[k], e2[k]))
+                rest = stmts[i + 1:]
+                if diff and rest and self.reads(rest, diff):
+                    r1, x1 = self.block(copy.deepcopy(rest), e1)
+                    r2, x2 = self.block(copy.deepcopy(rest), e2)
+                    out.append(ast.If(test=test, body=b1 + r1, orelse=b2 + r2))
+                    return out, self.meet(x1, x2)
+                out.append(ast.If(test=test, body=b1, orelse=b2))
+                env = self.meet(e1, e2)
+                continue
+            if isinstance(s, (ast.While, ast.For)):
+                need(not (stored_names(s.body) | stored_names(s.orelse)) & self.names,
+                     '%s: a constant local is bound inside a loop' % self.name)
+                if isinstance(s, ast.While):
+                    s.test = self.subst(s.test, env)
+                else:
+                    s.iter = self.subst(s.iter, env)
+                s.body, _ = self.block(s.body, dict(env))
+                s.orelse, _ = self.block(s.orelse, dict(env))
+                out.append(s)
+                continue
+            out.append(self.subst(s, env))
+        return out, env
+
+    def meet(self, e1, e2):
+        return dict((k, v) for k, v in e1.items() if k in e2 and same(v, e2[k]))
+
+
+# ---- shape of if statements
+
+def merge_suffix(stmts):
+    """if C: X; S  else: Y; S      ==   if C: X  else: Y
+                                         S"""
+    out = []
+    for s in stmts:
+        for fld in ('body', 'orelse'):
+            if isinstance(getattr(s, fld, None), list):
+                setattr(s, fld, merge_suffix(getattr(s, fld)))
+        after = []
+        if isinstance(s, ast.If):
+            while s.body and s.orelse and same(s.body[-1], s.orelse[-1]):
+                after.insert(0, s.body.pop())
+                s.orelse.pop()
+            if not s.body and s.orelse:
+                s = ast.If(test=negate(s.test), body=s.orelse, orelse=[])
+        out.append(s)
+        out.extend(after)
+    return out
+
+
+def merge_ifs(stmts):
+    """if A:            ==   if A and B:      (neither `if` has an else)
+           if B: X               X"""
+    out = []
+    for s in stmts:
+        for fld in ('body', 'orelse'):
+            if isinstance(getattr(s, fld, None), list):
+                setattr(s, fld, merge_ifs(getattr(s, fld)))
+        while isinstance(s, ast.If) and not s.orelse and len(s.body) == 1 \
+                and isinstance(s.body[0], ast.If) and not s.body[0].orelse:
+            def conj(e):
+                return list(e.values) if isinstance(e, ast.BoolOp) and isinstance(e.op, ast.And) else [e]
+            s = ast.If(test=ast.BoolOp(op=ast.And(), values=conj(s.test) + conj(s.body[0].test)),
+                       body=s.body[0].body, orelse=[])
+        out.append(s)
+    return out
+
+
+def is_new_token(v):
+    """Token('', text.position[, category=TC.x])"""
+    return (isinstance(v, ast.Call) and is_name(v.func, 'Token') and len(v.args) == 2
+            and isinstance(v.args[0], ast.Constant) and v.args[0].value == ''
+            and isinstance(v.args[1], ast.Attribute) and v.args[1].attr == 'position'
+            and is_name(v.args[1].value, 'text')
+            and all(k.arg == 'category' and is_code_attr(k.value) for k in v.keywords)
+            and len(v.keywords) <= 1)
+
+
+def hoist_new_token(body):
+    """...                                    ...
+       if C:                           ==     x = Token('', text.position)
+           x = Token('', text.position)       if C:
+           REST                                   REST
+    when the `if` is the last statement of the function, has no else, and C
+    does not read x: building the empty token has no effect and cannot fail,
+    and nobody reads x when C is false."""
+    if body and isinstance(body[-1], ast.If) and not body[-1].orelse and len(body[-1].body) >= 2:
+        s = body[-1]
+        f = s.body[0]
+        if isinstance(f, ast.Assign) and len(f.targets) == 1 and isinstance(f.targets[0], ast.Name) \
+                and is_new_token(f.value) \
+                and not any(isinstance(n, ast.Name) and n.id == f.targets[0].id for n in ast.walk(s.test)):
+            return body[:-1] + [f, ast.If(test=s.test, body=s.body[1:], orelse=[])]
+    return body
+
+
+def lift_predicates(fn):
+    """def p(c): return E   nested in the rule and bound once   ==   p = lambda c: E;
+    the name is replaced by the lambda where it is read"""
+    preds = {}
+    for st in fn.body:
+        if isinstance(st, ast.FunctionDef) and not st.decorator_list and not st.args.defaults \
+                and not st.args.vararg and not st.args.kwarg and not st.args.kwonlyargs \
+                and not getattr(st.args, 'posonlyargs', []) and len(st.args.args) == 1:
+            body = strip_doc(st.body)
+            if len(body) == 1 and isinstance(body[0], ast.Return) and body[0].value is not None:
+                preds[st.name] = ast.Lambda(args=st.args, body=body[0].value)
+    stores = [n.id for st in fn.body for n in ast.walk(st)
+              if isinstance(n, ast.Name) and isinstance(n.ctx, (ast.Store, ast.Del))]
+    defs = [n.name for st in fn.body for n in ast.walk(st) if isinstance(n, (ast.FunctionDef, ast.ClassDef))]
+    preds = dict((k, v) for k, v in preds.items()
+                 if k not in stores and defs.count(k) == 1 and k not in param_names(fn))
+    if not preds:
+        return
+
+    class T(ast.NodeTransformer):
+        def visit_Name(self, n):
+            if isinstance(n.ctx, ast.Load) and n.id in preds:
+                return copy.deepcopy(preds[n.id])
+            return n
+    fn.body = [T().visit(st) for st in fn.body
+               if not (isinstance(st, ast.FunctionDef) and st.name in preds)]
+
+
+def expand_ifexp_assigns(stmts):
+    """x = A if C else B   ==   if C: x = A   else: x = B     (x a name or name.attr)"""
+    out = []
+    for s in stmts:
+        for fld in ('body', 'orelse'):
+            if isinstance(getattr(s, fld, None), list):
+                setattr(s, fld, expand_ifexp_assigns(getattr(s, fld)))
+        if isinstance(s, ast.Assign) and isinstance(s.value, ast.IfExp) and len(s.targets) == 1 \
+                and (isinstance(s.targets[0], ast.Name) or (isinstance(s.targets[0], ast.Attribute)
+                                                            and isinstance(s.targets[0].value, ast.Name))):
+            t = s.targets[0]
+            s = ast.If(test=s.value.test,
+                       body=[ast.Assign(targets=[copy.deepcopy(t)], value=s.value.body)],
+                       orelse=[ast.Assign(targets=[copy.deepcopy(t)], value=s.value.orelse)])
+        out.append(s)
+    return out
+
+
+def renumber(fn):
+    """line numbers in evaluation (pre-)order, for messages and for readers that
+    sort by position (gen_tables.py)"""
+    k = [0]
+
+    def go(n):
+        k[0] += 1
+        if not hasattr(n, 'src_line'):
+            n.src_line = getattr(n, 'lineno', '?')
+        n.lineno, n.col_offset, n.end_lineno, n.end_col_offset = k[0], 0, k[0], 0
+        for c in ast.iter_child_nodes(n):
+            go(c)
+    go(fn)
+    return fn
+
+
+def normalise(fn, consts, helpers):
+    """the normal form of a rule (a copy; fn itself is not modified)"""
+    fn = copy.deepcopy(fn)
+    fn.body = strip_doc(fn.body)
+    need(fn.body, '%s: empty body' % fn.name)
+    lift_predicates(fn)
+    fn.body = Inliner(helpers, fn).block(fn.body)
+    inline_constants(fn, consts)
+    fn.body = expand_ifexp_returns(fn.body)
+    fn.body = expand_ifexp_assigns(fn.body)
+    fn.body = norm_tail(fn.body)
+    fn.body, _ = ConstProp(fn).block(fn.body, {})
+    fn.body = merge_suffix(fn.body)
+    fn.body = merge_ifs(fn.body)
+    fn.body = hoist_new_token(fn.body)
+    need(fn.body, '%s: empty body' % fn.name)
+    return renumber(fn)
+
+
+def normalised_rules(tree):
+    """[(rule name, normalised FunctionDef)] in registration order"""
+    rules, bound = check_module(tree)
+    consts = module_constants(tree, bound)
+    helpers = helper_defs(tree, bound)
+    return [(name, normalise(fn, consts, helpers)) for name, fn in rules]
 
 
 # ---------------------------------------------------------------------- rules
 
 class Rule(object):
-    """Translation of one rule body.  Local names are tracked by role: the DSL
-    has one token variable, one dict, one key, one loop variable."""
+    """Translation of one rule body (in normal form).  Local names are tracked by
+    role: the DSL has one token variable (`tok`), a second one (`tmp`), one dict
+    (`map`), one key, one loop variable (`point`), one recorded position
+    (`start`), one int (`int`)."""
 
     def __init__(self, fn):
         self.fn = fn
@@ -184,9 +837,9 @@ class Rule(object):
              and len(a.defaults) == 1 and isinstance(a.defaults[0], ast.Constant)
              and a.defaults[0].value is None and len(a.kw_defaults) == 0,
              '%s: parameters are not (text, prev=None)' % fn.name)
-        need(fn.returns is None, '%s: return annotation' % fn.name)
+        # annotations are not evaluated when the rule runs: ignored
         for n in ast.walk(fn):
-            need(not isinstance(n, (ast.FunctionDef, ast.AsyncFunctionDef, ast.Lambda, ast.ClassDef,
+            need(not isinstance(n, (ast.FunctionDef, ast.AsyncFunctionDef, ast.ClassDef,
                                     ast.Yield, ast.YieldFrom, ast.Await, ast.Try, ast.With,
                                     ast.Import, ast.ImportFrom)) or n is fn,
                  '%s: unsupported construct at %s: %s' % (fn.name, where(n), type(n).__name__))
@@ -281,6 +934,42 @@ class Rule(object):
             return args[0].value
         return None
 
+    # ---- predicates on a character, int-valued expressions
+    def pred(self, n):
+        """lambda c: c.category <op> ...  -> DSL pred, else None"""
+        if not (isinstance(n, ast.Lambda) and len(n.args.args) == 1 and not n.args.defaults
+                and not n.args.vararg and not n.args.kwarg and not n.args.kwonlyargs
+                and not getattr(n.args, 'posonlyargs', [])):
+            return None
+        c, b = n.args.args[0].arg, n.body
+        if c in self.roles or c in ('text', 'prev') or c in RESERVED:
+            return None
+        if isinstance(b, ast.Compare) and len(b.ops) == 1 and isinstance(b.left, ast.Attribute) \
+                and b.left.attr == 'category' and is_name(b.left.value, c):
+            op, rhs = type(b.ops[0]), b.comparators[0]
+            if op in (ast.Eq, ast.NotEq):
+                return '%s %s' % ('PCatEq' if op is ast.Eq else 'PCatNe', self.cc(rhs))
+            if op in (ast.In, ast.NotIn) and isinstance(rhs, ast.Tuple) and rhs.elts:
+                return '%s [%s]' % ('PCatIn' if op is ast.In else 'PCatNotIn',
+                                    '; '.join(self.cc(e) for e in rhs.elts))
+        return None
+
+    def iexpr(self, n):
+        """an int-valued expression -> DSL iexpr, else None"""
+        if is_int(n) and n.value >= 0:
+            return 'INum %d' % n.value
+        if self.has_role(n, 'int'):
+            return 'IVar'
+        args = self.text_call(n, 'num_forward_until')
+        if args is not None and len(args) == 1:
+            p = self.pred(args[0])
+            if p is not None:
+                return 'INumUntil (%s)' % p
+        if isinstance(n, ast.Call) and is_name(n.func, 'len') and not n.keywords and len(n.args) == 1 \
+                and self.has_role(n.args[0], 'tok'):
+            return 'ILenRes'
+        return None
+
     # ---- conditions (truth-value contexts)
     def cond(self, n):
         if isinstance(n, ast.BoolOp):
@@ -305,28 +994,50 @@ class Rule(object):
                     need(len(rhs.elts) >= 1, 'empty tuple')
                     return '%s (%s) [%s]' % ('ECatIn' if op is ast.In else 'ECatNotIn', c,
                                              '; '.join(self.cc(e) for e in rhs.elts))
-                if op is ast.In and isinstance(rhs, ast.Call) and isinstance(rhs.func, ast.Attribute) \
-                        and rhs.func.attr == 'keys' and self.has_role(rhs.func.value, 'map') \
-                        and not rhs.args and not rhs.keywords:
-                    return 'ECatInKeys (%s)' % c
+                if op in (ast.In, ast.NotIn) and (
+                        self.has_role(rhs, 'map')           # `in d` is `in d.keys()`
+                        or (isinstance(rhs, ast.Call) and isinstance(rhs.func, ast.Attribute)
+                            and rhs.func.attr == 'keys' and self.has_role(rhs.func.value, 'map')
+                            and not rhs.args and not rhs.keywords)):
+                    e = 'ECatInKeys (%s)' % c
+                    return e if op is ast.In else 'ENot (%s)' % e
                 self.err(n, 'unsupported test of a category')
             if self.is_range_peek(lhs):
                 if op is ast.Eq and self.has_role(rhs, 'point'):
                     return 'ERangeEqPoint'
                 self.err(n, 'unsupported test of a slice')
             if self.is_chr(lhs):
-                if op is ast.Eq and isinstance(rhs, ast.Constant) and isinstance(rhs.value, str) \
+                if op in (ast.Eq, ast.NotEq) and isinstance(rhs, ast.Constant) and isinstance(rhs.value, str) \
                         and len(rhs.value) == 1:
-                    return 'EEqChar (%s) %d%%N' % (self.chr(lhs), ord(rhs.value))
+                    e = 'EEqChar (%s) %d%%N' % (self.chr(lhs), ord(rhs.value))
+                    return e if op is ast.Eq else 'ENot (%s)' % e
+                if op in (ast.Is, ast.IsNot) and is_none_const(rhs):
+                    e = 'EPeekIsNone (%s)' % self.chr(lhs)
+                    return e if op is ast.Is else 'ENot (%s)' % e
                 self.err(n, 'unsupported test of a character')
             if self.has_role(lhs, 'prev'):
-                if op is ast.Is and isinstance(rhs, ast.Constant) and rhs.value is None:
-                    return 'EPrevIsNone'
+                if op in (ast.Is, ast.IsNot) and is_none_const(rhs):
+                    return 'EPrevIsNone' if op is ast.Is else 'ENot (EPrevIsNone)'
                 self.err(n, 'unsupported test of prev')
             if isinstance(lhs, ast.Attribute) and lhs.attr == 'category' and self.has_role(lhs.value, 'prev'):
-                if op is ast.NotEq:
-                    return 'EPrevCatNe %s' % self.cc(rhs)
+                if op in (ast.NotEq, ast.Eq):
+                    # a TC member (prev.category) against a CC or a TC member: by integer value
+                    if isinstance(rhs, ast.Attribute) and is_name(rhs.value, 'TC'):
+                        e = 'EPrevCatNeTC %s' % self.tc(rhs)
+                    else:
+                        e = 'EPrevCatNe %s' % self.cc(rhs)
+                    return e if op is ast.NotEq else 'ENot (%s)' % e
                 self.err(n, 'unsupported test of prev.category')
+            if is_int(rhs) and rhs.value >= 0 and op in (ast.Eq, ast.NotEq) and not is_int(lhs) \
+                    and self.iexpr(lhs) is not None:
+                e = 'EIntEq (%s) %d' % (self.iexpr(lhs), rhs.value)
+                return e if op is ast.Eq else 'ENot (%s)' % e
+            if self.has_role(lhs, 'tmp'):
+                if op in (ast.Eq, ast.NotEq) and isinstance(rhs, ast.Constant) and isinstance(rhs.value, str) \
+                        and len(rhs.value) == 1:
+                    e = 'ETmpEqChar %d%%N' % ord(rhs.value)
+                    return e if op is ast.Eq else 'ENot (%s)' % e
+                self.err(n, 'unsupported test of a token')
             if self.has_role(lhs, 'key'):
                 if op is ast.In and self.has_role(rhs, 'map'):
                     return 'EKeyInMap'
@@ -343,6 +1054,13 @@ class Rule(object):
             return 'ETruthy (%s)' % self.chr(n)
         if self.has_role(n, 'tok'):
             return 'EResTruthy'
+        if self.text_position(n):
+            return 'EPosTruthy'
+        if isinstance(n, ast.Call) and isinstance(n.func, ast.Attribute) and n.func.attr == 'endswith' \
+                and self.has_role(n.func.value, 'tok') and not n.keywords and len(n.args) == 1 \
+                and isinstance(n.args[0], ast.Constant) and isinstance(n.args[0].value, str) \
+                and len(n.args[0].value) == 1:
+            return 'EResEndsWith %d%%N' % ord(n.args[0].value)
         self.err(n, 'unsupported condition')
 
     # ---- dict literal
@@ -395,6 +1113,22 @@ class Rule(object):
                     self.err(s, 'unsupported tuple')
                 self.bind(t, 'key')
                 return ('atom', 'SSetKey (%s) (%s)' % (a, b))
+            # start = text.position
+            if self.text_position(v):
+                self.bind(t, 'start')
+                return ('atom', 'SSetStart')
+            # result = Token('', start[, category=TC.x])
+            if isinstance(v, ast.Call) and is_name(v.func, 'Token') and len(v.args) == 2 \
+                    and self.has_role(v.args[1], 'start') and isinstance(v.args[0], ast.Constant) \
+                    and v.args[0].value == '' and isinstance(v.args[0].value, str):
+                if not v.keywords:
+                    self.bind(t, 'tok')
+                    return ('atom', 'SNewTokenStart None')
+                if len(v.keywords) == 1 and v.keywords[0].arg == 'category':
+                    k = self.tc(v.keywords[0].value)
+                    self.bind(t, 'tok')
+                    return ('atom', 'SNewTokenStart (Some %s)' % k)
+                self.err(s, 'unsupported Token(...)')
             # result = Token(...)
             if isinstance(v, ast.Call) and is_name(v.func, 'Token'):
                 if len(v.args) == 2 and self.text_position(v.args[1]):
@@ -415,12 +1149,30 @@ class Rule(object):
             # result = text.forward(n) / text.forward(len(point))
             k = self.forward_n(v)
             if k is not None:
+                if isinstance(t, ast.Name) and 'tok' in self.roles.values() and self.roles.get(t.id) != 'tok':
+                    # a second token variable, next to the result
+                    self.bind(t, 'tmp')
+                    return ('atom', 'STmpForward %d' % k)
                 self.bind(t, 'tok')
                 return ('atom', 'SForward %d' % k)
             args = self.text_call(v, 'forward')
             if args is not None and len(args) == 1 and self.is_len_point(args[0]):
                 self.bind(t, 'tok')
                 return ('atom', 'SForwardPoint')
+            # result = text.forward(<int>) / text.forward_until(p);  n = <int>
+            if args is not None and len(args) == 1 and self.iexpr(args[0]) is not None:
+                ie = self.iexpr(args[0])
+                self.bind(t, 'tok')
+                return ('atom', 'SForwardI (%s)' % ie)
+            args = self.text_call(v, 'forward_until')
+            if args is not None and len(args) == 1 and self.pred(args[0]) is not None:
+                p = self.pred(args[0])
+                self.bind(t, 'tok')
+                return ('atom', 'SForwardUntil (%s)' % p)
+            if self.iexpr(v) is not None and isinstance(t, ast.Name):
+                ie = self.iexpr(v)
+                self.bind(t, 'int')
+                return ('atom', 'SSetInt (%s)' % ie)
             self.err(s, 'unsupported assignment')
         if isinstance(s, ast.AugAssign):
             if isinstance(s.op, ast.Add) and self.has_role(s.target, 'tok'):
@@ -431,6 +1183,11 @@ class Rule(object):
                 if isinstance(v, ast.Call) and is_name(v.func, 'next') and not v.keywords \
                         and len(v.args) == 1 and self.has_role(v.args[0], 'text'):
                     return ('atom', 'SAppendNext')
+                if self.has_role(v, 'tmp'):
+                    return ('atom', 'SAppendTmp')
+                args = self.text_call(v, 'forward')
+                if args is not None and len(args) == 1 and self.iexpr(args[0]) is not None:
+                    return ('atom', 'SAppendForwardI (%s)' % self.iexpr(args[0]))
             self.err(s, 'unsupported augmented assignment')
         if isinstance(s, ast.Expr):
             k = self.forward_n(s.value)
@@ -442,6 +1199,12 @@ class Rule(object):
                     and isinstance(args[0].right, ast.Attribute) and args[0].right.attr == 'position' \
                     and self.has_role(args[0].right.value, 'tok'):
                 return ('atom', 'SRollback')
+            if args is not None and len(args) == 1 and isinstance(args[0], ast.BinOp) \
+                    and isinstance(args[0].op, ast.Sub) and self.text_position(args[0].left) \
+                    and self.has_role(args[0].right, 'start'):
+                return ('atom', 'SRollbackStart')
+            if args is not None and len(args) == 1 and self.iexpr(args[0]) is not None:
+                return ('atom', 'SBackwardI (%s)' % self.iexpr(args[0]))
             self.err(s, 'unsupported expression statement')
         if isinstance(s, ast.Return):
             if s.value is None or (isinstance(s.value, ast.Constant) and s.value.value is None):
@@ -512,8 +1275,8 @@ def pp_stmt(it, ind):
 def generate():
     path = os.path.join(REPO, 'TexSoup', 'tokens.py')
     with open(path) as f:
-        tree = ast.parse(f.read())
-    rules = check_module(tree)
+        tree = strip_annotations(ast.parse(f.read()))
+    rules = normalised_rules(tree)
     out = []
     w = out.append
     w('(* GENERATED by harness/gen_tokrules.py from TexSoup/tokens.py -- do not edit.')
